@@ -413,6 +413,33 @@ def _refusal(ctx, P):
             ctx.report("R06.2", "grid_ufunc:_check_if_length_would_change", "DISALLOWED_OVERLAP_POSITIONS", f"the refused positions {sorted(dis)} differ from the length-changing positions of the geometry model {sorted(changing)}")
         else:
             ctx.ok("R06.2", "DISALLOWED_OVERLAP_POSITIONS", f"= length-changing positions {sorted(changing)}")
+    # a length-changing position anywhere in the signature: on a later input, on the second axis of an input, with no output axis at all
+    many = [("second of two inputs on outer", "(X:center),(X:outer)->(X:center)", [(AX,), (AX,)], lambda: (make_da("a", [Sym("t"), dimsym("AX", "center")]), make_da("b", [Sym("t"), dimsym("AX", "outer")])), {"X": (1, 0)}, True),
+            ("third of three inputs on inner", "(X:center),(X:left),(X:inner)->(X:center)", [(AX,), (AX,), (AX,)],
+             lambda: (make_da("a", [dimsym("AX", "center")]), make_da("b", [dimsym("AX", "left")]), make_da("c", [dimsym("AX", "inner")])), {"X": (1, 0)}, True),
+            ("second axis of one input on outer", "(X:center,Y:outer)->(X:left,Y:center)", [(AX, AY)], lambda: (make_da("a", [dimsym("AX", "center"), dimsym("AY", "outer")]),), {"X": (1, 0), "Y": (0, 0)}, True),
+            ("input on outer, output without axes", "(X:outer)->()", [(AX,)], lambda: (make_da("a", [Sym("t"), dimsym("AX", "outer")]),), {"X": (0, 0)}, True),
+            ("two inputs on centre and left", "(X:center),(X:left)->(X:center)", [(AX,), (AX,)], lambda: (make_da("a", [Sym("t"), dimsym("AX", "center")]), make_da("b", [Sym("t"), dimsym("AX", "left")])), {"X": (1, 0)}, False)]
+    for name, sig, axis, mk, bw, must_refuse in many:
+        inst = f"map_overlap with {sig} ({name})"
+        try:
+            outs = run_apply(P, sig, axis, args=mk, boundary_width=bw, map_overlap=True)
+        except Unmodelled as e:
+            ctx.unknown("R06.2", inst, str(e))
+            continue
+        bad = None
+        for o in outs:
+            did_work = [e[0] for e in o.events if e[0] in ("pad", "xr.apply_ufunc", "map_func_over_core_dims")]
+            if must_refuse and (o.kind != "raise" or o.value != "NotImplementedError"):
+                bad = f"a signature with a length-changing position ({name}) is {'answered' if o.kind == 'return' else 'refused with ' + str(o.value)} under map_overlap; it must be refused with NotImplementedError"
+            elif must_refuse and did_work:
+                bad = f"refused only after {did_work}"
+            elif not must_refuse and o.kind != "return":
+                bad = f"refused ({o.value}) although no position changes the length"
+        if bad:
+            ctx.report("R06.2", fi, inst, bad)
+        else:
+            ctx.ok("R06.2", inst, "refused before any work" if must_refuse else "mapped")
     # several outputs
     try:
         outs = run_apply(P, "(X:center)->(X:left),(X:right)", [(AX,)], boundary_width={"X": (1, 1)}, map_overlap=True)
